@@ -67,7 +67,7 @@ def judge_F(cmd, ans):
     status: 'ok' | 'deviation' (explained by named deviations -> keys) | 'violation' | 'unjudged' (no ABI for the pair / types outside)"""
     env, cc, va, ret, args, n = parse_F(cmd)
     abi = ABI.abi_of(env[0], env[1], env[2], cc)
-    if abi is None and env[0] == 0 and cc == 3 and ans.startswith("F ok") and n <= 32:
+    if abi is None and env[0] == 0 and cc == 3 and va == 255 and ans.startswith("F ok") and n <= 32 and all(32 <= t <= 43 or 71 <= t <= 100 for t in args):      # (__vectorcall functions cannot be variadic)
         # 32-bit __vectorcall: only the REGISTER rule is specified here (Microsoft docs, confirmed with clang -target i386-pc-windows-msvc): the
         # first two integer arguments of at most 32 bits travel in ECX / EDX and the k-th float / double / vector argument (k < 6) in XMM<k>;
         # stack layout and by-reference passing of the rest are not specified by this oracle
@@ -135,6 +135,31 @@ def wf_monitor(cmd, ans):
                     return ("C06/wf/outside-stack-area/" + ("win64-f80" if shape == "f80" and d["st"] in (1, 2) else "other"),
                             "argument %d occupies [+%d, +%d) but arg_stack_size is %d" % (i, v[4], v[4] + size, d["stack"]))
                 end = v[4] + size; last = shape
+    return None
+
+
+def explain_pending_fix(cmd, x, y):
+    """impl and model differ and the model describes a proposed repair that /repo may not contain yet.  Recognise exactly the unrepaired shapes:
+    (1) fixes/C06-win64-f80-by-ref.patch: positional strategy, differences only at kFloat80 arguments (by value in impl, by reference in model);
+    (2) fixes/C06-vectorcall32-regs.patch: 32-bit vectorcall, differences only in flags / vector order / float-vector argument placement."""
+    if not (x.startswith("F ok") and y.startswith("F ok")): return None
+    env, cc, va, ret, args, n = parse_F(cmd)
+    a, b = ABI.parse_detail(x), ABI.parse_detail(y)
+    if len(a["args"]) != len(b["args"]): return None
+    if a.get("st") in (1, 2):
+        for k in a["raw"]:
+            if k not in ("args", "used") and a["raw"][k] != b["raw"].get(k): return None
+        hit = False
+        for i, (p, q) in enumerate(zip(a["args"], b["args"])):
+            if p == q: continue
+            if not (len(p) == 1 and len(q) == 1 and p[0][0] == 44 and q[0][0] == 44 and p[0][5] == 0 and q[0][5] == 1): return None
+            hit = True
+        return ("C06/wf/outside-stack-area/win64-f80", "kFloat80 passed by value in an 8-byte home slot / vector register (repair: by reference)") if hit else None
+    if env[0] == 0 and cc == 3:
+        for k in a["raw"]:
+            if k not in ("args", "used", "flags", "o1", "passed", "stack") and a["raw"][k] != b["raw"].get(k): return None
+        if a["o1"][:6] != [0, 1, 2, 255, 255, 255] or b["o1"][:6] != [0, 1, 2, 3, 4, 5]: return None
+        return ("C06/abi/vectorcall32/vector-registers", "32-bit vectorcall with vector order 0,1,2 and floats on the stack (repair: XMM0..5, floats by vector register)")
     return None
 
 
@@ -237,6 +262,11 @@ def part_A(ck, impl, model, rng, cov):
             disagreements += 1
             if status in ("deviation", "violation"):
                 continue      # the oracle exhibited a failing input of the property itself (reported above)
+            pend = explain_pending_fix(cmd, x, y)
+            if pend:
+                dev_hits[pend[0]] += 1
+                ck.violation(pend[0], "%s: %s  [%s]" % (pend[0], pend[1], cmd), {"command": cmd, "impl": x, "model": y})
+                continue
             hs = explain_home_slots(x, y)
             if hs:
                 dev_hits[hs[0]] += 1
@@ -437,6 +467,7 @@ def part_B(ck, impl, model, rng, cov, regtypeid):
         dis = SH.disassemble([Ss[i]["bytes"] for i in ok_idx], arch)
         for i, d in zip(ok_idx, dis):
             Ss[i]["insts"] = d
+    SH.decode_all(model, Ss, run_lines)          # the verified whitelist (DecodeModel.v) reads every disassembled sequence
     st = collections.Counter()
     vcmds = []; vidx = []
     info = {}; asm_refused = {}; minsts = {}
@@ -469,7 +500,6 @@ def part_B(ck, impl, model, rng, cov, regtypeid):
             ms = SH.translate(S)
         except SH.Unmodelled as e:
             st["unmodelled"] += 1
-            S["unmodelled"] = str(e)
             continue
         minsts[i] = ms
         allowed = SH.allowed_locs(S)
@@ -569,7 +599,7 @@ def part_B(ck, impl, model, rng, cov, regtypeid):
                          {"command": c, "impl": S["raw"][:800], "model": v})
             if ok_v:
                 ck.violation(P + "validator-vs-simulator/" + c.replace(" ", "_")[:80], "the verified validator accepts a sequence the simulator shows wrong", {"command": c, "model": v,
-                             "broken": "instruction semantics table (tools/c06_shuffle.py to_minst) vs simulator"}, no_input=True)
+                             "broken": "instruction semantics table (DecodeModel.v) vs simulator"}, no_input=True)
             continue
         # a store wider than the destination slot of the move it belongs to (the move whose destination starts where the store starts)
         culprit = None
@@ -605,6 +635,7 @@ def part_B(ck, impl, model, rng, cov, regtypeid):
                 "B_mnemonics": dict(collections.Counter(m for S in Ss for m, _ in S["insts"]).most_common(30))})
     part_B_native(ck, impl, cmds, Ss, info, verdict, rng, cov)
     part_B_solver(ck, model, cmds, Ss, info, cov)
+    part_B_solver_full(ck, model, cmds, Ss, info, cov)
     return cmds, nontrivial, samples, st
 
 
@@ -619,6 +650,7 @@ def part_B_solver(ck, model, cmds, Ss, info, cov):
         if arch not in (1, 2) or not mvs or "dirty" not in S: continue
         if S["status"] != "ok" and S.get("err") != "emit:invstate": continue
         if S["sareg"] != S["sp"] or S.get("da"): continue
+        if S["status"] == "ok" and S.get("asm") != "ok": continue
         if not all(m["src"][0] == "R" and m["dst"][0] == "R" and m["src"][1] == 0 and m["dst"][1] == 0 and SH.is_intty(m["sty"]) and SH.is_intty(m["dty"]) for m in mvs): continue
         if len(mvs) != sum(1 for d in parse_S_cmd(c)[4] if d[0] != 0): continue          # some requested move is not in the fragment (stack / other group)
         excl = {4} if arch == 1 else {18, 31}
@@ -664,6 +696,84 @@ def part_B_solver(ck, model, cmds, Ss, info, cov):
             ck.violation("C06/solver/correspondence/" + cmds[i].replace(" ", "_")[:70], "solver model and emit_args_assignment differ on [%s]: implementation `%s`, model `%s`" % (cmds[i], want, got),
                          {"command": cmds[i], "impl": S["raw"][:600], "model": a, "broken": "correspondence of SolverModel.v with BaseEmitHelper::emit_args_assignment"}, no_input=True)
     cov["B_solver_model"] = dict(st)
+
+
+def part_B_solver_full(ck, model, cmds, Ss, info, cov):
+    """functional correspondence of the WHOLE function (coq/theories/CallConv/SolverFullModel.v): assignments over GP and vector registers, incoming
+    stack arguments and SP-based destination slots (integers of every width, scalar floats / 64 / 128-bit vectors of unchanged size, no AVX,
+    SP-based frame): the model must emit exactly the implementation's instruction list - stack stores first, the two-group shuffle, stack loads last -
+    and refuse exactly when the implementation refuses"""
+    idx = []; ycmds = []
+    def inside(m):
+        if SH.is_intty(m["sty"]) and SH.is_intty(m["dty"]):
+            return all(l[0] == "M" or l[1] == 0 for l in (m["src"], m["dst"]))
+        if SH.is_intty(m["sty"]) or SH.is_intty(m["dty"]): return False
+        if m["sbits"] != m["dbits"] or m["sbits"] not in (32, 64, 128): return False
+        if m["src"][0] == "M" and m["dst"][0] == "M": return False
+        return all(l[0] == "M" or l[1] == 1 for l in (m["src"], m["dst"]))
+    for i, (c, S) in enumerate(zip(cmds, Ss)):
+        arch = S.get("arch")
+        mvs = info[i]
+        if arch not in (1, 2) or not mvs or "dirty" not in S: continue
+        if S["status"] != "ok" and S.get("err") != "emit:invstate": continue
+        if S["sareg"] != S["sp"] or S.get("da"): continue
+        if S["status"] == "ok" and S.get("asm") != "ok": continue                          # the Assembler refused an instruction (judged in part B): the byte stream is incomplete
+        env, cc, args, opts, dsts = parse_S_cmd(c)
+        if opts[1] or opts[2]: continue                                                    # AVX / AVX-512 encodings: outside the model
+        if not all(inside(m) and not m["ind"] for m in mvs): continue
+        if len(mvs) != sum(1 for d in dsts if d[0] != 0): continue
+        if all(m["src"][0] == "R" and m["dst"][0] == "R" and m["src"][1] == 0 for m in mvs): continue      # already compared by part_B_solver
+        excl = {4} if arch == 1 else {18, 31}
+        al = SH.allowed_locs(S)
+        wgp = sorted(({l[2] for l in al if l[0] == "R" and l[1] == 0} | {m["src"][2] for m in mvs if m["src"][0] == "R" and m["src"][1] == 0}) - excl)
+        wvec = sorted({l[2] for l in al if l[0] == "R" and l[1] == 1} | {m["src"][2] for m in mvs if m["src"][0] == "R" and m["src"][1] == 1})
+        def var(m):
+            it = SH.is_intty(m["sty"])
+            return "%s %d %d %s %d %d %d" % (SH.loc_txt(m["src"]), m["sbits"] // 8, 1 if (it and m["sty"] in SH.SIGNED) else 0,
+                                             SH.loc_txt(m["dst"]), m["dbits"] // 8, 1 if (it and m["dty"] in SH.SIGNED) else 0, 1 if it else 0)
+        ycmds.append("Y %d %d %s %d %s %d %s" % (0 if arch == 1 else 1, len(wgp), " ".join(map(str, wgp)), len(wvec), " ".join(map(str, wvec)), len(mvs),
+                                                 " ".join(var(m) for m in mvs)))
+        idx.append(i)
+    ry = run_lines(model, ycmds)
+    st = collections.Counter()
+    for i, y, a in zip(idx, ycmds, ry):
+        S = Ss[i]
+        if S["status"] != "ok":
+            want = "Y err"; got = a
+        else:
+            try:
+                want = " ; ".join(SH.minst_txt(m) for m in SH.translate(S))
+            except SH.Unmodelled:
+                st["unmodelled"] += 1; continue
+            got = a.split(" ", 3)[3] if a.startswith("Y ok") and len(a.split(" ", 3)) > 3 else (a if not a.startswith("Y ok") else "")
+            if a.startswith("Y ok") and ",wf=1" not in a.split()[2]:
+                st["outside_wf_input"] += 1
+            if a.startswith("Y ok valid=0"):
+                st["model_output_not_validated"] += 1
+        got, want = canon_xchg(got), canon_xchg(want)
+        if got == want:
+            st["same_instruction_list" if S["status"] == "ok" else "both_refuse"] += 1
+            if S["status"] == "ok":
+                st["instructions_compared"] += len(S["insts"])
+                kinds = {(m["src"][0], m["dst"][0], m["src"][1] if m["src"][0] == "R" else m["dst"][1] if m["dst"][0] == "R" else 0) for m in info[i]}
+                for k in kinds: st["with_%s_to_%s_group%d" % k] += 1
+        else:
+            st["differs"] += 1
+            ck.violation("C06/solver-full/correspondence/" + cmds[i].replace(" ", "_")[:70], "full model and emit_args_assignment differ on [%s]: implementation `%s`, model `%s`" % (cmds[i], want, got),
+                         {"command": cmds[i], "impl": S["raw"][:600], "model": a, "model_command": y, "broken": "correspondence of SolverFullModel.v with BaseEmitHelper::emit_args_assignment"}, no_input=True)
+    cov["B_solver_full_model"] = dict(st)
+
+
+def canon_xchg(txt):          # xchg is symmetric and the encoding does not keep the operand order: order its two operands
+    out = []
+    for part in txt.split(" ; "):
+        f = part.split()
+        if f and f[0] == "G":
+            a, b = tuple(f[1:4]), tuple(f[4:7])
+            if (int(b[1]), int(b[2])) < (int(a[1]), int(a[2])): a, b = b, a
+            f = ["G"] + list(a) + list(b) + f[7:]
+        out.append(" ".join(f))
+    return " ; ".join(out)
 
 
 def part_B_native(ck, impl, cmds, Ss, info, verdict, rng, cov):
@@ -733,19 +843,30 @@ SPECIAL = [0, 1, -1, 0x7F, 0x80, 0xFF, 0x7FFF, 0x8000, 0xFFFF, 0x7FFFFFFF, 0x800
 
 
 def part_C(ck, impl, rng, cov):
-    """call-site marshalling (x86rapass on_before_invoke / move_imm_to_reg_arg / move_imm_to_stack_arg / move_reg_to_stack_arg): a Compiler-built
-    function calls C callees of the host (SysV x86-64) ABI with immediates and virtual registers; every received value is compared with the C
-    conversion of the passed value to the parameter type.  Host execution: the callee is compiled by the host C++ compiler."""
-    n = 600 if ck.tier == "quick" else 20000
+    """call-site marshalling (x86rapass on_before_invoke / move_imm_to_reg_arg / move_imm_to_stack_arg / move_reg_to_stack_arg / move_vec_to_ptr): a
+    Compiler-built function calls C callees with immediates and virtual registers; every received value is compared with the C conversion of
+    the passed value to the parameter type.  Callees: the host's SysV x86-64 ABI (CallConvId::kCDecl) and - compiled with __attribute__((ms_abi)) -
+    Win64 (CallConvId::kX64Windows): 12 x int64 / int32 / double / float, 16 mixed integers, interleaved (int64, double) x 6 (Win64: positional
+    registers), 10 and 4 x __m128i (SysV: XMM0..7 + stack; Win64: by reference, pointers in RCX/RDX/R8/R9 + stack)."""
+    n = 900 if ck.tier == "quick" else 30000
     cmds = []
+    NARGS = {0: 12, 1: 12, 2: 16, 3: 12, 4: 12, 5: 12, 6: 10, 7: 4}
+    def in_reg(kind, win, i):
+        if win: return i < 4
+        if kind in (3, 4, 6, 7): return i < 8
+        if kind == 5: return True
+        return i < 6
     for _ in range(n):
-        kind = rng.choice([0, 0, 1, 2, 2, 3])
-        cnt = 16 if kind == 2 else 12
-        parts = ["I", str(kind), str(cnt)]
+        kind = rng.choice([0, 0, 1, 2, 2, 3, 4, 5, 6, 7])
+        win = 1 if rng.random() < 0.5 else 0
+        cnt = NARGS[kind]
+        parts = ["I", str(kind + 16 * win), str(cnt)]
         for i in range(cnt):
             v = rng.choice(SPECIAL) if rng.random() < 0.6 else rng.getrandbits(64) - (1 << 63)
             mode = 1 if rng.random() < 0.35 else 0
-            if kind == 3 and i < 8: mode = 1           # double register arguments travel in virtual registers (an immediate cannot name an XMM value)
+            fp = kind in (3, 4) or (kind == 5 and i % 2 == 1)
+            if fp and in_reg(kind, win, i): mode = 1         # float register arguments travel in virtual registers (an immediate cannot name an XMM value)
+            if kind in (6, 7): mode = 1
             parts += [str(mode), str(v)]
         cmds.append(" ".join(parts))
     try:
@@ -755,30 +876,122 @@ def part_C(ck, impl, rng, cov):
         cov["C_invoke"] = {"crashed": 1}
         return cmds
     st = collections.Counter()
+    def s64(x):
+        x &= (1 << 64) - 1
+        return x - (1 << 64) if x >> 63 else x
     for c, a in zip(cmds, rs):
-        f = c.split(); kind = int(f[1]); cnt = int(f[2])
+        f = c.split(); kind = int(f[1]) & 15; win = int(f[1]) >> 4; cnt = int(f[2])
+        cname = "win64" if win else "sysv"
         if a.startswith("I err=host"):
             st["not an x86-64 host"] += 1; continue
         if not a.startswith("I ok"):
-            ck.violation("C06/invoke/refused/" + a.split("=")[-1], "the Compiler refused the call  [%s] -> %s" % (c, a), {"command": c, "impl": a})
+            if win and kind == 6 and a.strip() == "I err=finalize25":
+                # root cause: move_reg_to_stack_arg is asked to store the POINTER of a by-reference vector argument but dispatches on the vector type
+                ck.violation("C06/invoke/refused/win64-indirect-vector-stack-arg", "Win64: the Compiler refuses (kInvalidAssignment) a call whose 5th or later "
+                             "argument is a vector held in a virtual register (passed by reference, pointer on the stack)  [%s]" % c, {"command": c, "impl": a})
+                st["win64_vector_stack_arg_refused"] += 1
+                continue
+            ck.violation("C06/invoke/refused/%s/%s" % (cname, a.split("=")[-1]), "the Compiler refused the call  [%s] -> %s" % (c, a), {"command": c, "impl": a})
             continue
         got = [int(x) for x in a.split()[2:]]
-        st["calls"] += 1
+        st["calls"] += 1; st["calls_" + cname] += 1
+        want = []
         for i in range(cnt):
-            mode, v = int(f[3 + 2 * i]), int(f[4 + 2 * i])
-            size, signed = (8, 1) if kind in (0, 3) else (4, 1) if kind == 1 else MIX[i]
+            v = int(f[4 + 2 * i])
+            if kind in (6, 7):
+                want += [s64(v), s64(~v)]; continue
+            size, signed = (8, 1) if kind in (0, 3, 5) else (4, 1) if kind == 1 else (4, 0) if kind == 4 else MIX[i]
             w = v & ((1 << (8 * size)) - 1)
-            want = w - (1 << (8 * size)) if (signed and w >> (8 * size - 1)) else w
-            if want >= 1 << 63: want -= 1 << 64
+            want.append(s64(w - (1 << (8 * size)) if (signed and w >> (8 * size - 1)) else w))
+        per = 2 if kind in (6, 7) else 1
+        # SysV: float stack arguments are laid out in 4-byte slots (known FuncDetail defect C06/abi/sysv64/raw-slot): the callee, reading 8-byte
+        # slots, receives parameter 8 right and parameter 10's value as parameter 9
+        raw_slot = kind == 4 and not win and len(got) >= 12 and got[:9] == want[:9] and got[9] == want[10] and got[9:] != want[9:]
+        if raw_slot:
+            ck.violation("C06/abi/sysv64/raw-slot", "call site: 12 float arguments to a SysV callee - the stack arguments are written 4 bytes apart, the callee reads 8-byte slots: "
+                         "parameter 9 receives the value passed for parameter 10 (%#x)  [%s]" % (got[9], c), {"command": c, "impl": a})
+            st["sysv_float_stack_args_raw_slot"] += 1
+            continue
+        for i in range(cnt):
+            mode = int(f[3 + 2 * i])
             st["arguments"] += 1
-            where = "reg" if (i < 8 if kind == 3 else i < 6) else "stack"
-            if got[i] != want:
-                key = "C06/invoke/wrong-value/%s%d-%s-to-%s" % ("f" if kind == 3 else ("i" if signed else "u"), 8 * size, "imm" if mode == 0 else "vreg", where)
-                ck.violation(key, "the C callee received %#x for parameter %d (%s, %s), passed %#x -> expected %#x  [%s]" %
-                             (got[i] & (2 ** 64 - 1), i, key.split("/")[-1], where, v & (2 ** 64 - 1), want & (2 ** 64 - 1), c), {"command": c, "impl": a})
+            where = "reg" if in_reg(kind, win, i) else "stack"
+            tyname = {0: "i64", 1: "i32", 3: "f64", 4: "f32", 6: "v128", 7: "v128"}.get(kind) or (("f64" if i % 2 else "i64") if kind == 5 else "%s%d" % ("i" if MIX[i][1] else "u", 8 * MIX[i][0]))
+            if got[per * i:per * i + per] != want[per * i:per * i + per]:
+                key = "C06/invoke/wrong-value/%s%s-%s-to-%s" % ("win64/" if win else "", tyname, "imm" if mode == 0 else "vreg", where)
+                ck.violation(key, "the %s C callee received %s for parameter %d (%s, %s), expected %s  [%s]" %
+                             (cname, " ".join("%#x" % (g & (2 ** 64 - 1)) for g in got[per * i:per * i + per]), i, key.split("/")[-1], where,
+                              " ".join("%#x" % (g & (2 ** 64 - 1)) for g in want[per * i:per * i + per]), c), {"command": c, "impl": a})
             else:
-                st["%s_%s_right" % ("imm" if mode == 0 else "vreg", where)] += 1
+                st["%s_%s_%s_right" % (cname, "imm" if mode == 0 else "vreg", where)] += 1
+                if kind in (6, 7): st["%s_vector_args_right" % cname] += 1
     cov["C_invoke"] = dict(st)
+    return cmds
+
+
+def part_D(ck, impl, rng, cov):
+    """AArch64 call sites (no AArch64 CPU here): an a64::Compiler-built caller passes immediates and virtual registers; the assembled bytes are
+    disassembled by llvm-mc and run by a byte-level interpreter (tools/c06_a64call.py) up to the BLR, where x0-x7 / d0-d7 and the outgoing
+    area at SP must hold what AAPCS64 / Apple arm64 prescribe, and no argument store may run beyond the outgoing area"""
+    import c06_a64call as K
+    n = 400 if ck.tier == "quick" else 12000
+    cmds = []
+    for _ in range(n):
+        kind = rng.choice([0, 1, 1, 2, 2, 3]); apple = rng.random() < 0.5
+        cnt = 16 if kind == 2 else 12
+        parts = ["K", "2" if apple else "0", "2" if apple else "0", str(kind), str(cnt)]
+        for i in range(cnt):
+            v = rng.choice(SPECIAL) if rng.random() < 0.5 else rng.getrandbits(64) - (1 << 63)
+            mode = 1 if (kind == 3 or rng.random() < 0.4) else 0          # a64 call sites accept no floating point immediates
+            parts += [str(mode), str(v)]
+        cmds.append(" ".join(parts))
+    try:
+        rs = run_lines(impl, cmds, shards=8)
+    except RuntimeError as e:
+        ck.violation("C06/invoke/a64/harness-crash", "a64 call-site harness crashed: %s" % e, {"broken": "harness (a64 invoke builder)"}, no_input=True)
+        cov["D_a64_invoke"] = {"crashed": 1}
+        return cmds
+    st = collections.Counter()
+    ok = [(c, a.split("bytes=")[1].strip()) for c, a in zip(cmds, rs) if a.startswith("K ok")]
+    for c, a in zip(cmds, rs):
+        if not a.startswith("K ok"):
+            ck.violation("C06/invoke/a64/refused/" + a.split("=")[-1].strip(), "the a64 Compiler refused the call  [%s] -> %s" % (c, a), {"command": c, "impl": a})
+    dis = K.disassemble([b for _, b in ok])
+    for (c, b), ins in zip(ok, dis):
+        f = c.split(); apple = f[1] == "2"; kind = int(f[3]); cnt = int(f[4])
+        vals = [int(f[6 + 2 * i]) for i in range(cnt)]
+        txt = " ; ".join("%s %s" % (m, ",".join(o)) for m, o in ins)
+        P = "C06/invoke/a64/" + ("apple/" if apple else "")
+        try:
+            cpu = K.run_to_call(ins)
+        except K.Unmodelled as e:
+            st["unmodelled"] += 1
+            ck.violation(P + "unjudged/" + c.replace(" ", "_")[:60], "the call-site interpreter cannot run the sequence (%s): %s  [%s]" % (e, txt[:600], c),
+                         {"command": c, "broken": "tools/c06_a64call.py"}, no_input=True)
+            continue
+        st["calls"] += 1; st["calls_" + ("apple" if apple else "aapcs64")] += 1
+        st["arguments"] += cnt
+        lay_abi = K.layout(kind, apple)
+        lay_impl = K.layout(kind, apple, 4 if apple else None)          # AsmJit's own Apple layout (recorded deviation C06/abi/apple64/min-slot-4)
+        ov = K.overflowing_stores(cpu, (K.area_size(kind, apple, lay_impl) + 7) // 8 * 8)
+        if ov:
+            st["store_beyond_outgoing_area"] += 1
+            ck.violation(P + "stack-arg-store-wider-than-slot", "an argument store of %d bytes at [sp+%d] runs beyond the %d-byte outgoing argument area into the caller's frame: %s  [%s]" %
+                         (ov[0][1], ov[0][0], K.area_size(kind, apple, lay_impl), txt[:900], c), {"command": c, "impl": b})
+            continue
+        bad = K.check(cpu, kind, apple, vals, lay_abi)
+        if not bad:
+            st["all_arguments_right"] += 1; continue
+        if apple and kind == 2 and not K.check(cpu, kind, apple, vals, lay_impl):
+            st["apple_subword_stack_args_in_4_byte_slots"] += 1
+            ck.violation("C06/abi/apple64/min-slot-4", "call site: Apple arm64 callee with 1- and 2-byte stack parameters - the caller writes them 4 bytes apart, the ABI packs them: parameter %d "
+                         "expected at %s  [%s]" % (bad[0][0], bad[0][1], c), {"command": c, "impl": b})
+            continue
+        i, where, got, want = bad[0]
+        size, sg, fl = K.params(kind)[i]
+        ck.violation(P + "wrong-value/%s%d-to-%s" % ("f" if fl else ("i" if sg else "u"), 8 * size, "reg" if where[0] in "xd" else "stack"),
+                     "at the BLR parameter %d (%s) holds %#x, passed value requires %#x: %s  [%s]" % (i, where, got, want, txt[:900], c), {"command": c, "impl": b})
+    cov["D_a64_invoke"] = dict(st)
     return cmds
 
 
@@ -821,7 +1034,11 @@ def run(ck):
                 print(" model:", vlib.sh([model], inp=c + "\n")[1].strip())
                 print(" proven monitor:", vlib.sh([model], inp="A" + c[1:] + "\n")[1].strip())
                 print(" oracle:", judge_F(c, x))
-            else:
+            elif c.startswith("K ") and x.startswith("K ok"):
+                import c06_a64call as K
+                ins = K.disassemble([x.split("bytes=")[1].strip()])[0]
+                print(" disassembly:", " ; ".join("%s %s" % (m, ",".join(o)) for m, o in ins))
+            elif c.startswith("S ") or c.startswith("X "):
                 S = SH.parse_S(x)
                 if S["status"] == "ok":
                     arch = int(c.split()[1])
@@ -849,6 +1066,7 @@ def run(ck):
         clang_oracle(ck, cmdsA, riA, random.Random(ck.seed + 1), cov)
         cmdsB, ntB, samplesB, stB = part_B(ck, impl, model, random.Random(ck.seed + 2), cov, regtypeid)
         cmdsC = part_C(ck, impl, random.Random(ck.seed + 3), cov)
+        cmdsC = cmdsC + part_D(ck, impl, random.Random(ck.seed + 4), cov)
     except RuntimeError as e:
         ck.violation("C06/harness-crash", "harness or model driver failed: %s" % e, {"broken": "harness", "detail": str(e)}, no_input=True)
         cmdsA = cmdsB = []; ntA = ntB = set(); samplesA = samplesB = []; stB = {}
@@ -860,6 +1078,11 @@ def run(ck):
         floors = [("signatures under the guard of C06_assign_matches_abi", cov.get("A_under_theorem_guard", 0), 2000 * mult),
                   ("signatures judged by the ABI oracle", judged, 4000 * mult),
                   ("emitted shuffles accepted by the verified validator", (stB or {}).get("validated", 0), 2500 * mult)]
+        floors += [("assignments on which the full solver model equals the implementation", cov.get("B_solver_full_model", {}).get("same_instruction_list", 0), 1500 * mult),
+                   ("assignments on which the one-group solver model equals the implementation", cov.get("B_solver_model", {}).get("same_instruction_list", 0), 1500 * mult)]
+        if cov.get("C_invoke", {}).get("calls", 0) or not cov.get("C_invoke", {}).get("not an x86-64 host"):
+            floors.append(("host call sites executed", cov.get("C_invoke", {}).get("calls", 0), 500 * mult))
+        floors.append(("AArch64 call sites interpreted", cov.get("D_a64_invoke", {}).get("calls", 0), 250 * mult))
         if isinstance(cov.get("clang_oracle"), dict):
             floors.append(("parameters located by clang", cov["clang_oracle"].get("clang_confirms_pyspec", 0), 25 * mult))
         for name, got, need in floors:
